@@ -82,7 +82,7 @@ def ensure_makefile():
             raise RuntimeError("coq_makefile failed:\n" + out)
 
 
-def coq_make(targets, timeout=1500):
+def coq_make(targets, timeout=900):
     """Full .vo build of the given targets (and their dependencies)."""
     with Lock():
         ensure_makefile()
